@@ -56,6 +56,9 @@ impl Memfs {
 pub struct MemfsGuard { x: u8 }
 impl MemfsGuard {
     pub uninterp spec fn st(&self) -> St;
+    // ASSUMED[hashmap]: a HashMap has finitely many keys
+    #[verifier::external_body]
+    pub proof fn ax_finite(&self) ensures self.st().entries.dom().finite(), self.st().files.dom().finite() { }
 
     #[verifier::external_body]
     pub fn contains_entry(&self, path: &PathBuf) -> (b: bool)
